@@ -199,6 +199,12 @@ pub fn gen_pair(t: &mut Tape) -> (Prog, usize, usize) {
     } else {
         push(&mut ins, Ins::Union(s, r));
     }
+    // sometimes two groups of differently spelled constant words (single-string languages that are equal
+    // or different while their terms look alike / unlike)
+    if t.bool_p(50) {
+        Prog::decode_respell(t, &atoms, &mut ins);
+        Prog::decode_respell(t, &atoms, &mut ins);
+    }
     // wrappers that keep inclusions meaningful: complements (swap), unions, intersections
     let extra = t.choose(6);
     let cfg = ProgCfg::default();
